@@ -173,9 +173,9 @@ func (c *C) WantSample() bool {
 
 // Fail reports a violation observed in this case.
 func (c *C) Fail(kind string, detail map[string]any) {
-	c.failed = true
 	c.w.mu.Lock()
 	defer c.w.mu.Unlock()
+	c.failed = true
 	if len(c.w.violations) >= violationCap {
 		return
 	}
@@ -184,7 +184,11 @@ func (c *C) Fail(kind string, detail map[string]any) {
 	})
 }
 
-func (c *C) Failed() bool { return c.failed }
+func (c *C) Failed() bool {
+	c.w.mu.Lock()
+	defer c.w.mu.Unlock()
+	return c.failed
+}
 
 // SetExtra stores an additional evidence key (last writer wins per worker; the
 // driver merges numeric values by summing, others by keeping the first).
